@@ -8,11 +8,18 @@ import (
 type ctlStream struct {
 	client  string
 	buf     []byte
+	raw     bool  // bound data connection: a byte pipe from now on
 	garbage bool  // bytes that cannot start a frame were seen: the server may drop the connection
 	endedAt int64 // server-side read returned an error / EOF, or the server closed it (0 = open)
 }
 
-func (m *Monitor) TCPReadCall(c *TCPConn) {}
+func (m *Monitor) TCPReadCall(c *TCPConn) {
+	if c.Role == "listener-conn" {
+		m.mu.Lock()
+		m.readCalls["tcp:"+c.Name]++
+		m.mu.Unlock()
+	}
+}
 
 func (m *Monitor) TCPRead(c *TCPConn, b []byte) {
 	if c.Role != "listener-conn" {
@@ -26,7 +33,7 @@ func (m *Monitor) TCPRead(c *TCPConn, b []byte) {
 		cs = &ctlStream{client: akey(c.raddr.IP, c.raddr.Port)}
 		m.tcpCtl[c] = cs
 	}
-	if cs.garbage {
+	if cs.garbage || cs.raw {
 		return
 	}
 	cs.buf = append(cs.buf, b...)
@@ -47,6 +54,7 @@ func (m *Monitor) TCPRead(c *TCPConn, b []byte) {
 		}
 		frame := cs.buf[:n]
 		cs.buf = cs.buf[n:]
+		m.curSrc = "tcp:" + c.Name
 		m.srvRecv(cs.client, frame, true, now)
 	}
 }
@@ -70,10 +78,17 @@ func (m *Monitor) TCPWrite(c *TCPConn, b []byte) {
 	now := m.K.Now()
 	m.mu.Lock()
 	defer m.mu.Unlock()
+	if cs := m.tcpCtl[c]; cs != nil && cs.raw {
+		return
+	}
 	m.srvSend(akey(c.raddr.IP, c.raddr.Port), b, now)
 }
 
-func (m *Monitor) TCPAccepted(l *TCPListener, c *TCPConn) {}
+func (m *Monitor) TCPAccepted(l *TCPListener, c *TCPConn) {
+	if l.Role == "relay" {
+		m.acceptedAtRelay(l, c)
+	}
+}
 
 func (m *Monitor) ctlEnd(cs *ctlStream, now int64) {
 	if cs.endedAt == 0 {
@@ -116,9 +131,13 @@ func (m *Monitor) TCPClosed(c *TCPConn, how string) {
 	m.ctlEnd(cs, now)
 }
 
-func (m *Monitor) respConnect(r *mReq, msg *stun.Message, ok bool, code int, I ivl)  {}
-func (m *Monitor) respConnBind(r *mReq, msg *stun.Message, ok bool, code int, I ivl) {}
-func (m *Monitor) onConnAttempt(to string, msg *stun.Message, now int64)             {}
+func (m *Monitor) respConnect(r *mReq, msg *stun.Message, ok bool, code int, I ivl) {
+	m.doRespConnect(r, msg, ok, code, I)
+}
+func (m *Monitor) respConnBind(r *mReq, msg *stun.Message, ok bool, code int, I ivl) {
+	m.doRespConnBind(r, msg, ok, code, I)
+}
+func (m *Monitor) onConnAttempt(to string, msg *stun.Message, now int64) { m.doConnAttempt(to, msg, now) }
 
-func (m *Monitor) OutboundDialed(relayKey string, c *TCPConn) {}
+func (m *Monitor) OutboundDialed(relayKey string, c *TCPConn) { m.OutboundDialedImpl(relayKey, c) }
 func (m *Monitor) ControlClosed(client string)               {}
